@@ -193,6 +193,7 @@ func (ss *Sorts) typeTag(t types.Type) int {
 		}
 		return "int32"
 	})
+	k = strings.ReplaceAll(k, "interface{}", "any")
 	if v, ok := ss.typeTags[k]; ok {
 		return v
 	}
